@@ -707,6 +707,11 @@ class C08(Prop):
           'set_accessor_writable) under 0-4 nested as_sealed / allow_writable_accessors '
           'scopes (True/False/None); 400 dependent batches (a pair of a rebind inserts a sealed value, another '
           'pair of the same rebind addresses a key at or below that path, both orders, every receiver kind); '
+          '250 batches on a sealed receiver one of whose descendants was unsealed individually, pairs inside and '
+          'outside the unsealed part in every order; 300 histories of 2-4 calls on one accessor-protected receiver '
+          '(non-accessor mutators, then accessor writes), flags of all nodes compared after every call; 250 trees '
+          'whose lists / dict values / object fields hold inferential elements (a ValueFromParentChain subclass '
+          'that evaluates to a value outside the sealed subtree), sealed / unsealed at any node; '
           'plus an exhaustive grid: every entry point x {node, child, '
           'grandchild} x own flag x 9 scope stacks x accessor flag, and every mutating method found by '
           'introspection of the classes\' MRO. Non-trivial: the step addresses a node that is protected '
